@@ -42,6 +42,12 @@ def run(ctx):
     ctx.token_audit()
     if ok:
         ctx.axiom_audit("RootSim.Props.C07", THEOREMS)
+    # protocol level: a predicate that holds on a committed state of the optimistic run holds on the state every sequential run
+    # reaches after the same events (glue theorems)
+    ok2, _ = ctx.lean_build(["RootSim.Props.C01Term"])
+    if ok2:
+        ctx.axiom_audit("RootSim.Props.C01Term", ["RootSim.C01Term.tw_committed_predicate_is_sequential",
+                                                  "RootSim.C01Term.tw_first_true_point_exact"])
         if ctx.tier == "thorough":
             ctx.leanchecker("RootSim.Props.C07")
     if not ctx.cc("hc07", [os.path.join(vlib.HARNESS, "hc07.c")]):
